@@ -116,7 +116,7 @@ func runC16Dir(em *vEmitter, r *vRng, idx int) {
 						os.Remove(filepath.Join(h.base, e.Name()))
 					}
 				}
-				plantOne("-x", true)
+				plantOne([]string{"-x", "\u0430dmin", ".hidden", "ro ot", "r\u014fot", "root\xff"}[r.intn(6)], true)
 				class = "dir/invalid/only-admin-has-invalid-name"
 			case 9:
 				write(u+".user.bak", []byte("x"))
